@@ -99,6 +99,13 @@ def gen_mut(tp):
         return ['append', [tp.draw(256) for _ in range(1 + tp.draw(7))]]
     if k == 6:
         return ['dup']
+    if k == 7:
+        # damage near the end: the later elements of a bundle, decoded after
+        # the earlier ones
+        return ['fliptail', tp.draw(40), tp.draw(8)]
+    if k == 8:
+        # a bundle whose earlier elements are fine and whose last one is not
+        return ['badlast', tp.choice(['hibit', 'tag', 'cut'])]
     return None
 
 
@@ -135,9 +142,11 @@ def gen_case(tp, tier):
             nresp += 1
         elif r < 70:
             pk = gen_packet(tp, ctr, used)
+            mut = gen_mut(tp)
+            if mut is not None and mut[0] == 'badlast' and pk[0] == 'm':
+                pk = ['b', 'imm', [pk, gen_packet(tp, ctr, used, 2)]]
             ops.append(['send', tp.draw(len(SRCS)),
-                        XPORT if tp.draw(6) == 0 else LIB_PORT, pk,
-                        gen_mut(tp)])
+                        XPORT if tp.draw(6) == 0 else LIB_PORT, pk, mut])
         elif r < 88 and nresp:
             k = tp.draw(7)
             rid = tp.draw(nresp)
@@ -231,6 +240,30 @@ def mutate(data, mut):
             return data
         b = bytearray(data)
         b[mut[1] % len(b)] ^= 1 << mut[2]
+        return bytes(b)
+    if k == 'fliptail':
+        if not data:
+            return data
+        b = bytearray(data)
+        b[len(b) - 1 - mut[1] % len(b)] ^= 1 << mut[2]
+        return bytes(b)
+    if k == 'badlast':
+        if len(data) < 20 or data[:8] != b'#bundle\0':
+            return data
+        i = start = 16
+        while i + 4 <= len(data):
+            size = struct.unpack('>i', data[i:i + 4])[0]
+            start = i + 4
+            i = start + size
+        b = bytearray(data)
+        if mut[1] == 'cut':
+            return bytes(b[:-4])
+        at = start + 1
+        if mut[1] == 'tag':
+            c = data.find(b',', start)
+            at = c + 1 if c >= 0 and c + 1 < len(b) else at
+        if at < len(b):
+            b[at] |= 0x80
         return bytes(b)
     if k == 'len':
         if len(data) >= 20 and data[:8] == b'#bundle\0':
@@ -410,6 +443,7 @@ def run_case(case, tape, ctx):
     reg = Registry()
     robj = {}
     funcs = {}          # rid -> the callback object it currently uses
+    shared = set()      # responders whose callback object another one uses too
     inv = []           # invocation records
 
     def make_func(rid, ver):
@@ -571,10 +605,15 @@ def run_case(case, tape, ctx):
                 pos_in_group = {}
                 for rid, grp in exp:
                     hit = None
-                    for g in mine:
-                        if g['rid'] == reg.resp[rid].label \
-                                and not g.get('_used'):
-                            hit = g
+                    for exact in (True, False):
+                        for g in mine:
+                            if g['rid'] == reg.resp[rid].label \
+                                    and not g.get('_used') and (
+                                        not exact
+                                        or g['ver'] == reg.resp[rid].fver):
+                                hit = g
+                                break
+                        if hit is not None:
                             break
                     if hit is None:
                         r = reg.resp[rid]
@@ -606,7 +645,7 @@ def run_case(case, tape, ctx):
                 for g in mine:
                     if g.get('_used'):
                         continue
-                    if g['rid'] in amb:
+                    if g['rid'] in {reg.resp[x].label for x in amb}:
                         g['_used'] = True
                         bump('ambiguous-spec')
                         reg.fired(g['rid'])
@@ -716,6 +755,9 @@ def run_case(case, tape, ctx):
                     or o.rport is not None or o.template is not None \
                     or o.oneshot or o.selfact or oid not in funcs:
                 continue
+            # (sharing responders are not made one-shot: the lenient paths
+            # below keep the model in step by what the callback reports)
+            shared.update((rid, oid))
             r = Resp(rid, o.kind, o.path, None, None, None, False, None)
             r.label, r.fver = o.label, o.fver
             reg.add(r)
@@ -736,7 +778,7 @@ def run_case(case, tape, ctx):
         elif kind == 'oneshot':
             rid = op[1]
             if rid not in robj or reg.resp[rid].oneshot \
-                    or reg.resp[rid].freed:
+                    or reg.resp[rid].freed or rid in shared:
                 continue
             robj[rid].one_shot()
             reg.resp[rid].oneshot = True
